@@ -63,7 +63,6 @@ var pureFuncs = map[string]bool{
 	"(*github.com/m7913d/go-ntlm/ntlm.PayloadStruct).String": true,
 	"(net/http.Header).Get": true,
 	"(*net/http.Request).BasicAuth": true,
-	"(*net/url.URL).Query": true,
 	"(net/url.Values).Get": true,
 }
 
